@@ -596,6 +596,13 @@ impl Client {
     /// This function return true if it read the expected PDU
     fn read_demand_active_pdu(&mut self, stream: &mut dyn Read) -> RdpResult<bool> {
         let pdu = PDU::from_stream(stream)?;
+        self.handle_demand_active_pdu(&pdu)
+    }
+
+    /// Keep what a demand active PDU announce
+    ///
+    /// This function return true if it is a demand active PDU
+    fn handle_demand_active_pdu(&mut self, pdu: &PDU) -> RdpResult<bool> {
         if pdu.pdu_type == PDUType::PdutypeDemandactivepdu {
             for capability_set in cast!(DataType::Trame, pdu.message["capabilitySets"])?.iter() {
                 match Capability::from_capability_set(cast!(DataType::Component, capability_set)?) {
@@ -662,7 +669,10 @@ impl Client {
     /// Expect data PDU
     /// This is the old school PDU for bitmap
     /// transfer. Now all version use Fast Path transfer PDU
-    fn read_data_pdu(&mut self, stream: &mut dyn Read) -> RdpResult<()> {
+    ///
+    /// This function return true when the payload ends with the demand active
+    /// PDU of a new handshake, which have to be answered
+    fn read_data_pdu(&mut self, stream: &mut dyn Read) -> RdpResult<bool> {
         //let pdu = PDU::from_stream(stream)?;
         let mut message = Array::new(|| share_control_header(None, None, None));
         message.read(stream)?;
@@ -675,6 +685,12 @@ impl Client {
                 println!("GLOBAL: deactive/reactive sequence initiated");
                 self.state = ClientState::DemandActivePDU;
                 continue;
+            }
+            // The demand active of the new handshake may follow in the same payload
+            if let ClientState::DemandActivePDU = self.state {
+                if self.handle_demand_active_pdu(&pdu)? {
+                    return Ok(true)
+                }
             }
             if pdu.pdu_type != PDUType::PdutypeDatapdu {
                 println!("GLOBAL: Ignore PDU {:?}", pdu.pdu_type);
@@ -691,7 +707,7 @@ impl Client {
                 Err(e) => println!("GLOBAL: Parsing data PDU error {:?}", e)
             };
         }
-        Ok(())
+        Ok(false)
     }
 
     /// Read fast path input data
@@ -866,7 +882,14 @@ impl Client {
             ClientState::Data => {
                 // Now we can receive update data
                 match payload {
-                    tpkt::Payload::Raw(mut stream) => self.read_data_pdu(&mut stream),
+                    tpkt::Payload::Raw(mut stream) => {
+                        if self.read_data_pdu(&mut stream)? {
+                            self.write_confirm_active_pdu(mcs)?;
+                            self.write_client_finalize(mcs)?;
+                            self.state = ClientState::SynchronizePDU;
+                        }
+                        Ok(())
+                    },
                     tpkt::Payload::FastPath(_sec_flag, mut stream) => self.read_fast_path(&mut stream, callback)
                 }
             }
